@@ -900,7 +900,7 @@ def u64 : Codec Str := ⟨fun s => (parseU64 s).map showNat⟩
 def qStr : Codec (List Str) := ⟨fun vs => match vs with | [s] => some [s] | _ => none⟩
 
 /-- `Option<String>` query field (with or without `skip_serializing_if`: `serialize_none` writes
-nothing either way). `serde_html_form` reads an *empty* value as `None` (finding F18). -/
+nothing either way). `serde_html_form` reads an *empty* value as `None` (finding G18). -/
 def qOptStr : Codec (List Str) :=
   ⟨fun vs => match vs with | [] => some [] | [s] => if s = [] then some [] else some [s] | _ => none⟩
 
